@@ -6,6 +6,7 @@ import (
 	"sync"
 
 	"go.miragespace.co/specter/kv/aof/proto"
+	"go.miragespace.co/specter/spec/chord"
 	"go.miragespace.co/specter/spec/protocol"
 )
 
@@ -42,6 +43,24 @@ func (d *DiskKV) handleMutation(mut *proto.Mutation) error {
 
 	}
 	return err
+}
+
+// validateMutation reports a mutation that the current state is known to reject.
+// Such a mutation has to be refused before it is appended to the log: replay applies
+// every logged entry and refuses to open the store when one of them is rejected, so a
+// crash between the append and the rollback would otherwise leave an unopenable log.
+func (d *DiskKV) validateMutation(mut *proto.Mutation) error {
+	switch mut.GetType() {
+	case proto.MutationType_PREFIX_APPEND:
+		exists, err := d.memKv.PrefixContains(context.Background(), mut.GetKey(), mut.GetValue())
+		if err != nil {
+			return err
+		}
+		if exists {
+			return chord.ErrKVPrefixConflict
+		}
+	}
+	return nil
 }
 
 func (d *DiskKV) mutationHandler(fn func(mut *proto.Mutation)) error {
